@@ -251,6 +251,37 @@ class CallMixin:
                 finally:
                     self.frames.pop()
 
+    def format_safety(self, fmt, nargs, kwnames, node):
+        """str.format / _format: the replacement fields of the template must be satisfied by the arguments.
+        A literal template is checked field by field (IndexError / KeyError sites proved absent or raised);
+        a template that is NOT a literal (computed from run-time text) can contain any field: the call may
+        raise IndexError, KeyError, ValueError or AttributeError."""
+        import string as _string
+        tmpl = fmt.concrete() if isinstance(fmt, VStr) else None
+        if tmpl is None:
+            for cls in ('KeyError', 'IndexError', 'ValueError', 'AttributeError'):
+                self.may_raise(z3.Bool(self.fresh_name('fmtfield')), cls, node, kind=f'{cls}@format-template-is-not-a-literal')
+            return
+        try:
+            fields = list(_string.Formatter().parse(tmpl))
+        except ValueError:
+            self.raise_('ValueError', node)
+        auto = 0
+        for _lit, fname, _spec, _conv in fields:
+            if fname is None:
+                continue
+            head = fname.split('.')[0].split('[')[0]
+            if head == '':
+                idx, auto = auto, auto + 1
+            elif head.isdigit():
+                idx = int(head)
+            else:
+                if head not in kwnames:
+                    self.raise_('KeyError', node)
+                continue
+            if idx >= nargs:
+                self.raise_('IndexError', node)
+
     def format_concat(self, args):
         """_format(template, *args) for a literal template with plain {n} fields of str
         arguments is concatenation (the value carries meaning, e.g. a name or a pattern)."""
@@ -293,6 +324,8 @@ class CallMixin:
             self.used_assumptions.add(f'A-NOOP:{fi.qualname}')
             return NONE
         if fi.name in DEFAULT_OPAQUE_STR and fi.cls is None:
+            if fi.name == '_format' and args:
+                self.format_safety(self.res(args[0]), len(args) - 1, set(kwargs), node)
             if fi.name == '_format' and args and not kwargs:
                 r = self.format_concat(args)
                 if r is not None:
